@@ -346,6 +346,9 @@ pub struct RunResult {
     /// tokio: remaining bytes of a keep-alive reply held by the connection (hook)
     pub unanswered: Option<usize>,
     pub harness_error: Option<String>,
+    /// a packet written before the program proper (handshake / preamble) that the codec refuses on its own was
+    /// not refused by the connection, or left bytes on the wire
+    pub preamble_fault: Option<String>,
     pub panicked: Option<String>,
 }
 
@@ -437,9 +440,14 @@ fn run_blocking(inst: &Instance, hist: &[Act], inner: Arc<Mutex<Inner>>) -> RunR
     framed.verify_version(inst.verify_version);
     if let Some(isi) = &inst.handshake {
         let was = std::mem::replace(&mut inner.lock().unwrap().script_writes, false);
+        let refused = Codec::new(mode_of(inst.compressed)).encode(&Packet::Isi(isi.clone())).is_err();
         let r = framed.handshake(isi.clone());
         let mut w = inner.lock().unwrap();
-        if r.is_err() {
+        if refused {
+            if r.is_ok() || !w.written.is_empty() {
+                out.preamble_fault = Some(format!("handshake with an ISI the codec refuses returned {:?} and put {} byte(s) on the wire", r.map_err(|e| e.to_string()), w.written.len()));
+            }
+        } else if r.is_err() {
             w.harness_error = Some(format!("handshake failed: {r:?}"));
         }
         w.script_writes = was;
@@ -451,7 +459,15 @@ fn run_blocking(inst: &Instance, hist: &[Act], inner: Arc<Mutex<Inner>>) -> RunR
     if !inst.preamble.is_empty() {
         let was = std::mem::replace(&mut inner.lock().unwrap().script_writes, false);
         for p in &inst.preamble {
-            if let Err(e) = framed.write(p.clone()) {
+            let refused = Codec::new(mode_of(inst.compressed)).encode(p).is_err();
+            let before = inner.lock().unwrap().written.len();
+            let r = framed.write(p.clone());
+            let after = inner.lock().unwrap().written.len();
+            if refused {
+                if r.is_ok() || after != before {
+                    out.preamble_fault = Some(format!("write of a packet the codec refuses returned {:?} and put {} byte(s) on the wire", r.map_err(|e| e.to_string()), after - before));
+                }
+            } else if let Err(e) = r {
                 inner.lock().unwrap().harness_error = Some(format!("preamble write failed: {e}"));
             }
         }
@@ -527,8 +543,13 @@ fn run_tokio(inst: &Instance, hist: &[Act], inner: Arc<Mutex<Inner>>) -> RunResu
             let mut t = tokio_test::task::spawn(framed.handshake(isi.clone(), std::time::Duration::from_secs(5)));
             t.poll()
         };
+        let refused = Codec::new(mode_of(inst.compressed)).encode(&Packet::Isi(isi.clone())).is_err();
         let mut w = inner.lock().unwrap();
-        if !matches!(r, Poll::Ready(Ok(()))) {
+        if refused {
+            if !matches!(r, Poll::Ready(Err(_))) || !w.written.is_empty() {
+                out.preamble_fault = Some(format!("handshake with an ISI the codec refuses returned {:?} and put {} byte(s) on the wire", r.map(|x| x.map_err(|e| e.to_string())), w.written.len()));
+            }
+        } else if !matches!(r, Poll::Ready(Ok(()))) {
             w.harness_error = Some(format!("handshake did not complete at once: {r:?}"));
         }
         w.script_writes = was;
@@ -540,11 +561,18 @@ fn run_tokio(inst: &Instance, hist: &[Act], inner: Arc<Mutex<Inner>>) -> RunResu
     if !inst.preamble.is_empty() {
         let was = std::mem::replace(&mut inner.lock().unwrap().script_writes, false);
         for p in &inst.preamble {
+            let refused = Codec::new(mode_of(inst.compressed)).encode(p).is_err();
+            let before = inner.lock().unwrap().written.len();
             let r = {
                 let mut t = tokio_test::task::spawn(framed.write(p.clone()));
                 t.poll()
             };
-            if !matches!(r, Poll::Ready(Ok(()))) {
+            let after = inner.lock().unwrap().written.len();
+            if refused {
+                if !matches!(r, Poll::Ready(Err(_))) || after != before {
+                    out.preamble_fault = Some(format!("write of a packet the codec refuses returned {:?} and put {} byte(s) on the wire", r.map(|x| x.map_err(|e| e.to_string())), after - before));
+                }
+            } else if !matches!(r, Poll::Ready(Ok(()))) {
                 inner.lock().unwrap().harness_error = Some(format!("preamble write did not complete at once: {r:?}"));
             }
         }
